@@ -184,6 +184,64 @@ def main():
         ok, detail, wit = setbytes_obligation(prog, ck, T, M, pre)
         record('%s.SetBytes' % fname, ok, detail, (fname, 'SetBytes'))
 
+    # the exported wrapper methods: each is one call of the generated leaf with the operands in the right places (leaves
+    # replaced by recorders), Set copies the limbs, Select is executed on the real selectznz with arbitrary limbs
+    from sm2lib import equality_obligation
+    for fname, pre, M, T in FIELDS:
+        eng = new_engine(prog, timeout_ms=60000)
+        calls = []
+
+        def mk_rec(leaf):
+            def rec(e, a, ins):
+                calls.append((leaf, [(x.obj, x.path) if isinstance(x, Ptr) else x for x in a]))
+                e.store(a[0], [e.fresh_bv('leaf_out%d_%d' % (len(calls), k), 64) for k in range(4)])
+                return None
+            return rec
+        eng.init_globals()       # package initialisers run on the real leaves; the recorders are installed afterwards
+        for leaf in ('Add', 'Sub', 'Mul', 'Square', 'Opp', 'SetOne'):
+            eng.intercepts[FIAT + '.%s%s' % (pre, leaf)] = mk_rec(leaf)
+        wbad = []
+
+        def run_wr(e, pre=pre, T=T):
+            def elem(nm):
+                limbs = [e.fresh_bv('%s%d' % (nm, k), 64) for k in range(4)]
+                return e.new_obj([list(limbs)], FIAT + '.' + T), limbs
+            for meth, leaf, nargs in (('Add', 'Add', 2), ('Sub', 'Sub', 2), ('Mul', 'Mul', 2), ('Square', 'Square', 1), ('Opp', 'Opp', 1), ('One', 'SetOne', 0)):
+                fn = '(*%s.%s).%s' % (FIAT, T, meth)
+                if fn not in e.prog.funcs:
+                    continue
+                (oe, _), (o1, _), (o2, _) = elem('e'), elem('s'), elem('t')
+                del calls[:]
+                out = e.call_outcome(fn, [Ptr(oe, ())] + [Ptr(o1, ()), Ptr(o2, ())][:nargs])
+                want = [(oe, (0,))] + [(o1, (0,)), (o2, (0,))][:nargs]
+                rv = out.values[0] if isinstance(out.values, (list, tuple)) else out.values
+                if out.kind != 'return' or len(calls) != 1 or calls[0][0] != leaf or calls[0][1] != want or not (isinstance(rv, Ptr) and rv.obj == oe and rv.path == ()):
+                    wbad.append('%s is not one call %s%s(&e.x%s) returning e' % (meth, pre, leaf, ', &t1.x, &t2.x'[:nargs * 7]))
+            # Set
+            (oe, _), (o1, l1) = elem('e'), elem('s')
+            out = e.call_outcome('(*%s.%s).Set' % (FIAT, T), [Ptr(oe, ()), Ptr(o1, ())])
+            if out.kind != 'return' or not all(a is b or (not isinstance(a, int) and a.eq(b)) for a, b in zip(e.heap[oe][0][0], l1)) or not all(a is b or a.eq(b) for a, b in zip(e.heap[o1][0][0], l1)):
+                wbad.append('Set does not copy the limbs of its argument')
+            # Select on the real selectznz
+            for cond in (1, 0):
+                (oe, _), (oa, la), (ob, lb) = elem('e'), elem('a'), elem('b')
+                out = e.call_outcome('(*%s.%s).Select' % (FIAT, T), [Ptr(oe, ()), Ptr(oa, ()), Ptr(ob, ()), cond])
+                if out.kind != 'return':
+                    wbad.append('Select panics')
+                    continue
+                got = e.heap[oe][0][0]
+                wantl = la if cond == 1 else lb
+                pr = e.prove(z3.And(*[tobv(g, 64) == w for g, w in zip(got, wantl)]))
+                if pr[0] != 'proved':
+                    wbad.append('Select(a, b, %d) does not return %s' % (cond, 'a' if cond == 1 else 'b') if pr[0] == 'cex' else 'Select: solver unknown')
+        eng.explore(run_wr)
+        ck.absorb(eng)
+        record('%s.wrappers' % fname, True if not wbad else 'cex', 'Add/Sub/Mul/Square/Opp/One are one call of the generated leaf on (&e.x, &t1.x, &t2.x) and return the receiver; Set copies the limbs; Select(a,b,1)=a, Select(a,b,0)=b for all limbs' if not wbad else '; '.join(sorted(set(wbad))), (fname, 'wrappers'))
+        oke, edetail, ewit = equality_obligation(prog, ck, T, M)
+        record('%s.Equal' % fname, True if oke is True else oke, edetail, (fname, 'Equal'))
+        if ewit is not None:
+            forced.append((fname, int.from_bytes(bytes(ewit[0]), 'big'), int.from_bytes(bytes(ewit[1]), 'big')))
+
     # MultiSelect: masked selection over a table, all table contents / widths up to the bound
     eng = new_engine(prog, timeout_ms=60000 if not thorough else 600000)
     widths = [1, 15, 63] if not thorough else [1, 2, 15, 16, 31, 63, 64, 127]
@@ -288,7 +346,9 @@ def main():
                         go_bytes(list((pow(a, -1, M) if a else 0).to_bytes(32, 'big'))), go_bytes(list(((a * a) % M).to_bytes(32, 'big')))))
     src = '''package fiat
 import ("testing"; "bytes")
+func verifCanon(x [4]uint64, m [4]uint64) bool { for i := 3; i >= 0; i-- { if x[i] < m[i] { return true }; if x[i] > m[i] { return false } }; return false }
 func TestVerifReplay(t *testing.T) {
+	pl, nl := [4]uint64{%s}, [4]uint64{%s}
 	cases := []struct{ f int; a, b, mul, add, sub, inv, sq []byte }{
 %s
 	}
@@ -303,6 +363,17 @@ func TestVerifReplay(t *testing.T) {
 			if !bytes.Equal(new(SM2Element).Invert(a).Bytes(), c.inv) { t.Fatalf("case %%d: field Invert", i) }
 			if !bytes.Equal(new(SM2Element).Opp(a).Bytes(), new(SM2Element).Sub(new(SM2Element), a).Bytes()) { t.Fatalf("case %%d: Opp", i) }
 			if !bytes.Equal(new(SM2Element).Select(a, b, 1).Bytes(), c.a) || !bytes.Equal(new(SM2Element).Select(a, b, 0).Bytes(), c.b) { t.Fatalf("case %%d: Select", i) }
+			// results must be canonical Montgomery limbs (Bytes() reduces and would hide a value in [p, 2^256))
+			for j, r := range []*SM2Element{new(SM2Element).Mul(a, b), new(SM2Element).Add(a, b), new(SM2Element).Sub(a, b), new(SM2Element).Square(a), new(SM2Element).Opp(a), new(SM2Element).Add(b, a)} {
+				if !verifCanon([4]uint64(r.x), pl) { t.Fatalf("case %%d: field result %%d is not reduced below p", i, j) }
+			}
+			if !bytes.Equal(new(SM2Element).Opp(new(SM2Element).Add(a, b)).Bytes(), new(SM2Element).Sub(new(SM2Element), new(SM2Element).Add(a, b)).Bytes()) { t.Fatalf("case %%d: -(a+b)", i) }
+			eq := 0; if bytes.Equal(c.a, c.b) { eq = 1 }
+			if a.Equal(b) != eq || b.Equal(a) != eq || a.Equal(a) != 1 { t.Fatalf("case %%d: field Equal", i) }
+			za := 0; if bytes.Equal(c.a, make([]byte, 32)) { za = 1 }
+			if a.IsZero() != za { t.Fatalf("case %%d: field IsZero", i) }
+			if !bytes.Equal(new(SM2Element).Set(a).Bytes(), c.a) { t.Fatalf("case %%d: field Set", i) }
+			if !bytes.Equal(new(SM2Element).Mul(new(SM2Element).One(), a).Bytes(), c.a) { t.Fatalf("case %%d: field One", i) }
 		} else {
 			a, e1 := new(SM2ScalarElement).SetBytes(c.a); b, e2 := new(SM2ScalarElement).SetBytes(c.b)
 			if e1 != nil || e2 != nil { t.Fatalf("case %%d: canonical value rejected", i) }
@@ -311,6 +382,16 @@ func TestVerifReplay(t *testing.T) {
 			if !bytes.Equal(new(SM2ScalarElement).Sub(a, b).Bytes(), c.sub) { t.Fatalf("case %%d: scalar Sub", i) }
 			if !bytes.Equal(new(SM2ScalarElement).Square(a).Bytes(), c.sq) { t.Fatalf("case %%d: scalar Square", i) }
 			if !bytes.Equal(new(SM2ScalarElement).Invert(a).Bytes(), c.inv) { t.Fatalf("case %%d: scalar Invert", i) }
+			for j, r := range []*SM2ScalarElement{new(SM2ScalarElement).Mul(a, b), new(SM2ScalarElement).Add(a, b), new(SM2ScalarElement).Sub(a, b), new(SM2ScalarElement).Square(a), new(SM2ScalarElement).Add(b, a)} {
+				if !verifCanon([4]uint64(r.x), nl) { t.Fatalf("case %%d: scalar result %%d is not reduced below n", i, j) }
+			}
+			if !bytes.Equal(new(SM2ScalarElement).Select(a, b, 1).Bytes(), c.a) || !bytes.Equal(new(SM2ScalarElement).Select(a, b, 0).Bytes(), c.b) { t.Fatalf("case %%d: scalar Select", i) }
+			eq := 0; if bytes.Equal(c.a, c.b) { eq = 1 }
+			if a.Equal(b) != eq || b.Equal(a) != eq || a.Equal(a) != 1 { t.Fatalf("case %%d: scalar Equal", i) }
+			za := 0; if bytes.Equal(c.a, make([]byte, 32)) { za = 1 }
+			if a.IsZero() != za { t.Fatalf("case %%d: scalar IsZero", i) }
+			if !bytes.Equal(new(SM2ScalarElement).Set(a).Bytes(), c.a) { t.Fatalf("case %%d: scalar Set", i) }
+			if !bytes.Equal(new(SM2ScalarElement).Mul(new(SM2ScalarElement).One(), a).Bytes(), c.a) { t.Fatalf("case %%d: scalar One", i) }
 		}
 	}
 	pm := %s
@@ -318,7 +399,7 @@ func TestVerifReplay(t *testing.T) {
 	nm := %s
 	if _, err := new(SM2ScalarElement).SetBytes(nm); err == nil { t.Fatalf("n accepted as scalar") }
 	if _, err := new(SM2Element).SetBytes(pm[:31]); err == nil { t.Fatalf("31-byte encoding accepted") }
-}''' % ('\n'.join(rows), go_bytes(list(P.to_bytes(32, 'big'))), go_bytes(list(N.to_bytes(32, 'big'))))
+}''' % (', '.join('0x%x' % ((P >> (64 * i)) & (W - 1)) for i in range(4)), ', '.join('0x%x' % ((N >> (64 * i)) & (W - 1)) for i in range(4)), '\n'.join(rows), go_bytes(list(P.to_bytes(32, 'big'))), go_bytes(list(N.to_bytes(32, 'big'))))
     okr, outr, pathr = ck.go_test('sm2/internal/fiat', src, name='field_vectors')
     if okr is True:
         ck.validated += len(rows)
